@@ -375,7 +375,7 @@ let c02 op a =
 let vals_of (s : string) : val0 list = List.map val_of (items (parse_sx s))
 let c03 op a =
   match op, a with
-  | "c03.wf", [e; ts; vs; b] ->
+  | ("c03.wf" | "c03.wf.rev"), [e; ts; vs; b] ->
       let env = env_of e and ts = tys_of ts and vs = vals_of vs in
       (* typed encoding = annotate (strict) then encode; it needs at least as many values as types *)
       let nts = List.length ts in
@@ -399,7 +399,7 @@ let c03 op a =
       (match spec_decode_untyped_raw (unhex b) with
        | Ok (_, got) -> if got = vs then "(ok)" else "(bad-values " ^ String.concat " " (List.map sx_of_val got) ^ ")"
        | Err _ -> "(model-rejects-message)" | Panic -> "(panic)" | OutOfFuel -> "(skip)")
-  | ("c10.annotate" | "c10.annotate.blob"), [p; e; t; v] ->
+  | ("c10.annotate" | "c10.annotate.blob" | "c10.annotate.rev"), [p; e; t; v] ->
       (match annotate_top (p = "1") (env_of e) (val_of (parse_sx v)) (ty_of (parse_sx t)) with
        | Some w -> "(ok " ^ sx_of_val w ^ ")" | None -> "(err)")
   | "c04.sub_implies_coerce", [e; t; t2; v] ->
